@@ -139,7 +139,7 @@ class Conservation(object):
     def start(self, drv):
         self.prev = None  # (V, {sec full_name: (pos, price, mult)})
         self.day_ext = 0.0
-        self.day_costs = 0.0
+        self.day_mark = 0
 
     def before_op(self, drv, op):
         self.pre_v = drv.root.value
@@ -158,11 +158,13 @@ class Conservation(object):
         if not d <= t:
             drv.violation("c02_op", op=op, value_before=self.pre_v, value_after=info["post_v"], external=ext, costs=costs, trades=n, diff=info["post_v"] - exp)
         self.day_ext += ext
-        self.day_costs += costs
 
     def end_of_date(self, drv, di, dt):
         root = drv.root
         V = root.value
+        # every trade of the date, including liquidation trades triggered by an update outside any driver operation
+        day_costs, _ = costs_of(ins.EV[self.day_mark:], root, drv.spec["comm"])
+        self.day_mark = len(ins.EV)
         secs = {}
         for m in ins.securities(root):
             px = drv.data[m.name].iloc[di] if m.name in drv.data.columns else float("nan")
@@ -176,16 +178,15 @@ class Conservation(object):
                     npx = secs[name][1] if name in secs else float("nan")
                     mtm += pos * (npx - px) * mult
                     g += abs(pos * px * mult)
-            exp = pv + mtm + self.day_ext - self.day_costs
+            exp = pv + mtm + self.day_ext - day_costs
             gg = g + ins.gross(root) + abs(pv)
             t = REL * (1 + gg + abs(self.day_ext))
             bump(drv.cnt, "conservation_date_evals")
             mx(drv.res, "conservation_date_rel", abs(V - exp) / (1 + gg))
             if not abs(V - exp) <= t:
-                drv.violation("c02_date", date_index=di, value=V, expected=exp, prev_value=pv, mtm=mtm, external=self.day_ext, costs=self.day_costs)
+                drv.violation("c02_date", date_index=di, value=V, expected=exp, prev_value=pv, mtm=mtm, external=self.day_ext, costs=day_costs)
         self.prev = (V, secs)
         self.day_ext = 0.0
-        self.day_costs = 0.0
 
 
 class Index(object):
